@@ -41,20 +41,56 @@
 //!
 //! Every violating signature is re-run alone (serially) three times and reported only if it
 //! violates every time; otherwise it is counted as flaky.
+//!
+//! Socket kinds (request half).  The product above is executed through three of rustrtc's
+//! `IceSocketWrapper` kinds; signatures / replay files of the first kind are unchanged, the
+//! others carry `;kind=<kind>` resp. `"socket": "<kind>"`:
+//!
+//! * `udp` — the per-connection UDP host socket (everything above).
+//! * `shared-udp-mux` — `ice_udp_mux`: the process-wide shared UDP socket, demultiplexed by the
+//!   ufrag in the Binding request's USERNAME and afterwards by source address.  Every case gets a
+//!   mux port of its own (a process-wide counter over 20100..32700, below the ephemeral range; a
+//!   port that cannot be bound makes the set-up fail and the case is re-run on the next port), so
+//!   parallel cases never share a socket.  TWO real transports are registered on the socket: A
+//!   (under test, genuine peer P) and a bystander B (controlled, Checking, genuine peer PB).
+//!   USERNAME additionally takes `<B's ufrag>:<B's peer ufrag>` and MESSAGE-INTEGRITY additionally
+//!   HMAC under B's password; both transports are snapshotted.  A may only change after (right
+//!   USERNAME, HMAC under A's password), B only after (B's USERNAME, HMAC under B's password).
+//!   Quiescence: the mux has one receive loop, one FIFO per session and one read loop per session,
+//!   so an authenticated no-op barrier P->A *and* one PB->B behind the datagram under test prove it
+//!   has been handled wherever it was routed.
+//! * `tcp-passive` — `ice_tcp_policy = PassiveOnly`: the transport owns a UDP host socket and an
+//!   RFC 6544 passive TCP listener; the request arrives RFC 4571-framed on an accepted TCP
+//!   connection: `known` = a connection from the address advertised as the peer's TCP (active)
+//!   candidate, `stranger` = a second connection from an unlisted address.  States are reached
+//!   through the UDP peer as above, plus `connected-over-tcp` (controlled role only: a genuine
+//!   authenticated USE-CANDIDATE check on the peer's TCP connection selected the TCP pair; the
+//!   known-source request then travels on that same connection).  Every accepted connection has its
+//!   own read loop, so a barrier from P proves nothing about S; and on TCP every authenticated
+//!   request of a controlling peer nominates, so there is no authenticated no-op.  The barrier is
+//!   therefore a non-STUN frame written behind the request on the SAME connection and observed
+//!   through the transport's public `set_data_receiver` hook: the connection's read loop awaits
+//!   `handle_packet` frame by frame, so the barrier frame's delivery proves the request has been
+//!   handled completely.
 use hmac::{Hmac, Mac};
 use rayon::prelude::*;
 use rustrtc::transports::ice::{IceParameters, stun::StunMessage};
+use rustrtc::transports::PacketReceiver;
 use rustrtc::{
-    IceCandidate, IceCandidateType, IceGathererState, IceRole, IceTransport, IceTransportState,
+    IceCandidate, IceCandidateType, IceGathererState, IceRole, IceTcpPolicy, IceTransport, IceTransportState,
     RtcConfiguration,
 };
 use serde_json::{Value, json};
 use sha1::Sha1;
 use std::collections::{BTreeMap, BTreeSet};
 use std::net::SocketAddr;
+use std::sync::Arc;
+use std::sync::atomic::{AtomicU32, Ordering};
 use std::time::{Duration, Instant};
-use tokio::net::UdpSocket;
-use tokio::sync::watch;
+use tokio::io::{AsyncReadExt, AsyncWriteExt};
+use tokio::net::tcp::OwnedWriteHalf;
+use tokio::net::{TcpSocket, UdpSocket};
+use tokio::sync::{mpsc, watch};
 
 // ───────────────────────────── dimensions ─────────────────────────────
 
@@ -76,6 +112,9 @@ dim!(User {
     // "<agent ufrag>:<the peer's ufrag of the PREVIOUS ICE generation>": this session's username
     // until the remote ICE restart, not afterwards (only enumerated in the restarted state)
     Stale => "stale-remote-ufrag",
+    // "<the bystander transport's ufrag>:<its peer's ufrag>": names ANOTHER live transport that is
+    // registered on the same shared UDP socket (only enumerated for the shared-udp-mux kind)
+    Other => "other-transport",
     Right => "right",
 });
 dim!(Mi {
@@ -84,11 +123,19 @@ dim!(Mi {
     RemotePwd => "remote-pwd",
     ThirdKey => "third-key",
     BitFlip => "bitflip",
+    // HMAC-SHA1 under the BYSTANDER transport's local password (shared-udp-mux kind only)
+    OtherPwd => "other-transport-pwd",
     Correct => "correct",
 });
 dim!(Fp { Absent => "absent", Bad => "bad", Good => "good" });
 dim!(RoleAttr { Controlling => "ice-controlling", Controlled => "ice-controlled" });
-dim!(Src { Known => "known", Stranger => "stranger" });
+dim!(Src {
+    Known => "known",
+    Stranger => "stranger",
+    // shared-udp-mux kind only: the address of the BYSTANDER transport's genuine peer PB, i.e. a
+    // source the shared socket currently routes to the other session
+    OtherPeer => "other-transport-peer",
+});
 dim!(St {
     New => "new",
     Checking => "checking",
@@ -98,7 +145,11 @@ dim!(St {
     // start(old remote credentials), one genuine authenticated check under them, then a remote ICE
     // restart: start(new remote credentials) -> Checking again
     Restarted => "checking-after-remote-restart",
+    // tcp-passive kind, controlled role: a genuine authenticated USE-CANDIDATE check on the peer's
+    // TCP connection selected the TCP pair (Connected, nominated)
+    ConnectedTcp => "connected-over-tcp",
 });
+dim!(Kind { Udp => "udp", Mux => "shared-udp-mux", Tcp => "tcp-passive" });
 dim!(Role { Controlling => "controlling", Controlled => "controlled" });
 dim!(RClass { Success => "success", Error => "error" });
 dim!(TxKind { Random => "random", Stale => "stale", Live => "live" });
@@ -116,6 +167,7 @@ struct ReqCase {
     src: Src,
     st: St,
     role: Role,
+    kind: Kind,
 }
 
 #[derive(Clone, Copy, Debug, PartialEq, Eq)]
@@ -137,10 +189,19 @@ impl ReqCase {
     fn authenticated(&self) -> bool {
         self.user == User::Right && self.mi == Mi::Correct
     }
+    /// authenticated against the bystander transport of the shared-udp-mux kind
+    fn authenticated_for_bystander(&self) -> bool {
+        self.kind == Kind::Mux && self.user == User::Other && self.mi == Mi::OtherPwd
+    }
     fn json(&self) -> Value {
-        json!({"kind": "request", "user": self.user.name(), "mi": self.mi.name(), "flip_bit": self.flip, "fp": self.fp.name(),
+        let mut v = json!({"kind": "request", "user": self.user.name(), "mi": self.mi.name(), "flip_bit": self.flip, "fp": self.fp.name(),
                "use_candidate": self.uc, "role_attr": self.attr.name(), "source": self.src.name(),
-               "state": self.st.name(), "role": self.role.name()})
+               "state": self.st.name(), "role": self.role.name()});
+        // the udp kind keeps the replay format it always had
+        if self.kind != Kind::Udp {
+            v["socket"] = json!(self.kind.name());
+        }
+        v
     }
 }
 impl RespCase {
@@ -169,6 +230,10 @@ impl Case {
                 src: Src::parse(s("source")?)?,
                 st: St::parse(s("state")?)?,
                 role: Role::parse(s("role")?)?,
+                kind: match s("socket") {
+                    Some(k) => Kind::parse(k)?,
+                    None => Kind::Udp,
+                },
             })),
             "response" => Some(Case::Resp(RespCase {
                 class: RClass::parse(s("class")?)?,
@@ -322,6 +387,17 @@ const THIRD_KEY: &[u8] = b"c06-third-party-key-000000";
 const WRONG_UFRAG: &str = "c06wrongufrag";
 const OLD_PEER_UFRAG: &str = "c06oldpeer";
 const OLD_PEER_PWD: &str = "c06oldpeerpassword9876543210";
+/// the bystander transport's genuine peer (shared-udp-mux kind)
+const PEERB_UFRAG: &str = "c06peerB";
+const PEERB_PWD: &str = "c06peerBpassword0123456789";
+
+/// The credentials a request is built against: the transport under test and, for the
+/// shared-udp-mux kind, the bystander transport registered on the same socket.
+#[derive(Clone, Debug)]
+struct Creds {
+    local: IceParameters,
+    other: Option<IceParameters>,
+}
 
 #[allow(clippy::too_many_arguments)]
 fn build_request(
@@ -332,8 +408,9 @@ fn build_request(
     fp: Fp,
     uc: bool,
     attr: RoleAttr,
-    local: &IceParameters,
+    creds: &Creds,
 ) -> Vec<u8> {
+    let local = &creds.local;
     let mut attrs: Vec<(u16, Vec<u8>)> = vec![];
     match user {
         User::None => {}
@@ -342,6 +419,10 @@ fn build_request(
             A_USERNAME,
             format!("{}:{}", local.username_fragment, OLD_PEER_UFRAG).into_bytes(),
         )),
+        User::Other => {
+            let other = creds.other.as_ref().expect("User::Other needs a bystander transport");
+            attrs.push((A_USERNAME, format!("{}:{}", other.username_fragment, PEERB_UFRAG).into_bytes()))
+        }
         User::Right => attrs.push((
             A_USERNAME,
             format!("{}:{}", local.username_fragment, PEER_UFRAG).into_bytes(),
@@ -368,9 +449,20 @@ fn build_request(
         Mi::RemotePwd => MiSpec::Key(PEER_PWD.as_bytes()),
         Mi::ThirdKey => MiSpec::Key(THIRD_KEY),
         Mi::BitFlip => MiSpec::KeyFlip(local.password.as_bytes(), flip),
+        Mi::OtherPwd => MiSpec::Key(creds.other.as_ref().expect("Mi::OtherPwd needs a bystander transport").password.as_bytes()),
         Mi::Correct => MiSpec::Key(local.password.as_bytes()),
     };
     build_stun(T_BINDING_REQ, txid, &attrs, spec, fp)
+}
+
+/// The bystander's own authenticated no-op check (ordering barrier PB -> B).
+fn build_bystander_barrier(txid: &[u8; 12], other: &IceParameters) -> Vec<u8> {
+    let attrs: Vec<(u16, Vec<u8>)> = vec![
+        (A_USERNAME, format!("{}:{}", other.username_fragment, PEERB_UFRAG).into_bytes()),
+        (A_PRIORITY, ((110u32 << 24) | (65_535 << 8) | 255).to_be_bytes().to_vec()),
+        (A_CONTROLLING, 0x0C06_0C06_0C06_0C06u64.to_be_bytes().to_vec()),
+    ];
+    build_stun(T_BINDING_REQ, txid, &attrs, MiSpec::Key(other.password.as_bytes()), Fp::Good)
 }
 
 /// Independent validation of the harness encoder against the `stun` crate and rustrtc's decoder.
@@ -378,7 +470,10 @@ fn encoder_self_check() -> Result<(), String> {
     use stun::fingerprint::FINGERPRINT;
     use stun::integrity::MessageIntegrity;
     use stun::message::Message;
-    let local = IceParameters::new("agentufrag", "agentpassword0123456789ab");
+    let local = Creds {
+        local: IceParameters::new("agentufrag", "agentpassword0123456789ab"),
+        other: Some(IceParameters::new("otherufrag", "otherpassword0123456789ab")),
+    };
     let txid = [7u8; 12];
     let check = |mi: Mi, fp: Fp| -> (bool, bool) {
         let bytes = build_request(&txid, User::Right, mi, 159, fp, true, RoleAttr::Controlling, &local);
@@ -386,14 +481,14 @@ fn encoder_self_check() -> Result<(), String> {
         if m.unmarshal_binary(&bytes).is_err() {
             return (false, false);
         }
-        let mi_ok = MessageIntegrity::new_short_term_integrity(local.password.clone()).check(&mut m).is_ok();
+        let mi_ok = MessageIntegrity::new_short_term_integrity(local.local.password.clone()).check(&mut m).is_ok();
         let fp_ok = FINGERPRINT.check(&m).is_ok();
         (mi_ok, fp_ok)
     };
     if check(Mi::Correct, Fp::Good) != (true, true) {
         return Err("stun crate rejects the harness' correct MI / good FINGERPRINT".into());
     }
-    for mi in [Mi::Absent, Mi::Random, Mi::RemotePwd, Mi::ThirdKey, Mi::BitFlip] {
+    for mi in [Mi::Absent, Mi::Random, Mi::RemotePwd, Mi::ThirdKey, Mi::BitFlip, Mi::OtherPwd] {
         if check(mi, Fp::Good).0 {
             return Err(format!("stun crate accepts MI class {} under the local password", mi.name()));
         }
@@ -414,6 +509,26 @@ fn encoder_self_check() -> Result<(), String> {
             }
         }
     }
+    // the bystander's credentials: (other USERNAME, other password) and the bystander barrier must
+    // verify under the bystander's password and under nothing else
+    let other_pwd = local.other.as_ref().unwrap().password.clone();
+    for bytes in [
+        build_request(&txid, User::Other, Mi::OtherPwd, 0, Fp::Good, true, RoleAttr::Controlling, &local),
+        build_bystander_barrier(&txid, local.other.as_ref().unwrap()),
+    ] {
+        let mut m = Message::new();
+        m.unmarshal_binary(&bytes).map_err(|e| format!("stun crate cannot parse bystander request: {e}"))?;
+        if MessageIntegrity::new_short_term_integrity(other_pwd.clone()).check(&mut m).is_err() {
+            return Err("stun crate rejects the bystander-keyed MESSAGE-INTEGRITY".into());
+        }
+        if MessageIntegrity::new_short_term_integrity(local.local.password.clone()).check(&mut m).is_ok() {
+            return Err("bystander-keyed MESSAGE-INTEGRITY verifies under the wrong password".into());
+        }
+        let d = StunMessage::decode(&bytes).map_err(|e| format!("rustrtc cannot decode bystander request: {e}"))?;
+        if d.username.as_deref() != Some(&format!("otherufrag:{PEERB_UFRAG}")) {
+            return Err("rustrtc decodes the bystander USERNAME differently".into());
+        }
+    }
     Ok(())
 }
 
@@ -421,11 +536,13 @@ fn encoder_self_check() -> Result<(), String> {
 
 #[derive(Clone, Debug, PartialEq, Eq)]
 struct Snap {
-    /// addresses are stored symbolically (agent / P / S) so that outcomes compare across runs
+    /// addresses are stored symbolically (agent / P / S / ...) so that outcomes compare across runs
     remotes: Vec<(String, String)>,
     pair: Option<(String, String)>,
     state: IceTransportState,
     nomination: Option<bool>,
+    /// `get_selected_socket()`, symbolic; recorded, never judged (not named by the property)
+    socket: Option<String>,
 }
 
 impl Snap {
@@ -435,23 +552,78 @@ impl Snap {
             "selected_pair": self.pair.as_ref().map(|p| format!("{}->{}", p.0, p.1)),
             "state": format!("{:?}", self.state),
             "nomination": self.nomination,
+            "selected_socket": self.socket,
         })
     }
 }
 
-struct Env {
+/// shared-udp-mux kind: the second transport registered on the same shared socket, and its peer.
+struct Bystander {
     ice: IceTransport,
+    nom_rx: watch::Receiver<Option<bool>>,
+    pb: UdpSocket,
+    runner: tokio::task::JoinHandle<()>,
+}
+
+/// tcp-passive kind: the harness' two TCP endpoints.  Both local addresses are fixed (bound) at
+/// set-up so that P's can be advertised as a remote candidate before any connection exists.
+struct TcpSide {
+    agent_tcp: SocketAddr,
+    p_addr: SocketAddr,
+    s_addr: SocketAddr,
+    p_sock: Option<TcpSocket>,
+    s_sock: Option<TcpSocket>,
+    p_conn: Option<OwnedWriteHalf>,
+    s_conn: Option<OwnedWriteHalf>,
+    frames_tx: mpsc::UnboundedSender<(char, Vec<u8>)>,
+    frames_rx: mpsc::UnboundedReceiver<(char, Vec<u8>)>,
+    /// non-STUN frames the transport handed to its data receiver (the ordering barrier's echo)
+    data_rx: mpsc::UnboundedReceiver<(Vec<u8>, SocketAddr)>,
+}
+
+struct DataTap {
+    tx: mpsc::UnboundedSender<(Vec<u8>, SocketAddr)>,
+}
+
+#[async_trait::async_trait]
+impl PacketReceiver for DataTap {
+    async fn receive(&self, packet: bytes::Bytes, addr: SocketAddr, _marshal_buf: &mut Vec<u8>) {
+        let _ = self.tx.send((packet.to_vec(), addr));
+    }
+}
+
+/// Every shared-udp-mux case gets a port of its own: a process-wide counter over a range below the
+/// ephemeral ports (so that no `bind(:0)` of a parallel case can land on it), offset by the pid so
+/// that two c06 processes rarely meet.  A port somebody else holds makes the bind — and with it
+/// the set-up — fail, and the case is re-run on the next port.
+static MUX_PORT_CTR: AtomicU32 = AtomicU32::new(0);
+fn next_mux_port() -> u16 {
+    const LO: u32 = 20_100;
+    const N: u32 = 12_600;
+    let off = (std::process::id() % 64) * 197;
+    let k = MUX_PORT_CTR.fetch_add(1, Ordering::Relaxed);
+    (LO + (off + k) % N) as u16
+}
+
+struct Env {
+    kind: Kind,
+    ice: IceTransport,
+    /// the agent's UDP address (for the mux kind: the shared socket, common to A and B)
     agent: SocketAddr,
     p: UdpSocket,
     s: UdpSocket,
-    local: IceParameters,
+    creds: Creds,
     nom_rx: watch::Receiver<Option<bool>>,
+    /// tags: 'P' / 'S' / 'B' = datagram received on the UDP sockets P / S / PB,
+    /// 'T' / 'U' = frame received on the TCP connection of P / of the stranger
     inbox: Vec<(char, Parsed, Instant)>,
     ctr: u64,
     salt: u64,
     l1: Option<[u8; 12]>,
     l2: Option<[u8; 12]>,
     runner: tokio::task::JoinHandle<()>,
+    b: Option<Bystander>,
+    tcp: Option<TcpSide>,
 }
 
 const SETUP_DEADLINE: Duration = Duration::from_secs(4);
@@ -468,51 +640,118 @@ impl Env {
 
     fn tag(&self, a: SocketAddr) -> String {
         if a == self.agent {
-            "agent".into()
-        } else if Some(a) == self.p.local_addr().ok() {
-            "P".into()
-        } else if Some(a) == self.s.local_addr().ok() {
-            "S".into()
-        } else {
-            a.to_string()
+            return "agent".into();
+        }
+        if Some(a) == self.p.local_addr().ok() {
+            return "P".into();
+        }
+        if Some(a) == self.s.local_addr().ok() {
+            return "S".into();
+        }
+        if let Some(b) = &self.b
+            && Some(a) == b.pb.local_addr().ok()
+        {
+            return "PB".into();
+        }
+        if let Some(t) = &self.tcp {
+            if a == t.agent_tcp {
+                return "agent-tcp".into();
+            }
+            if a == t.p_addr {
+                return "P-tcp".into();
+            }
+            if a == t.s_addr {
+                return "S-tcp".into();
+            }
+        }
+        a.to_string()
+    }
+
+    /// `IceSocketWrapper::diag()` ("udp:<addr>", "udp-mux:<addr>", "tcp-stream:peer=<addr>") with the
+    /// address replaced by its symbolic name.
+    fn tag_socket(&self, diag: &str) -> String {
+        match diag.split_once(':') {
+            Some((k, rest)) => {
+                let addr = rest.strip_prefix("peer=").unwrap_or(rest);
+                match addr.parse::<SocketAddr>() {
+                    Ok(a) => format!("{k}:{}", self.tag(a)),
+                    Err(_) => diag.to_string(),
+                }
+            }
+            None => diag.to_string(),
+        }
+    }
+
+    fn snapshot_of(&self, ice: &IceTransport, nom_rx: &watch::Receiver<Option<bool>>) -> Snap {
+        Snap {
+            remotes: ice.remote_candidates().iter().map(|c| (self.tag(c.address), format!("{:?}", c.typ))).collect(),
+            pair: ice.get_selected_pair().map(|p| (self.tag(p.local.address), self.tag(p.remote.address))),
+            state: ice.state(),
+            nomination: *nom_rx.borrow(),
+            socket: ice.get_selected_socket().map(|s| self.tag_socket(&s.diag())),
         }
     }
 
     fn snapshot(&self) -> Snap {
-        Snap {
-            remotes: self
-                .ice
-                .remote_candidates()
-                .iter()
-                .map(|c| (self.tag(c.address), format!("{:?}", c.typ)))
-                .collect(),
-            pair: self.ice.get_selected_pair().map(|p| (self.tag(p.local.address), self.tag(p.remote.address))),
-            state: self.ice.state(),
-            nomination: *self.nom_rx.borrow(),
-        }
+        self.snapshot_of(&self.ice, &self.nom_rx)
     }
 
-    /// Waits up to `wait` for a datagram on P or S, then drains both into the inbox.
+    fn snapshot_bystander(&self) -> Option<Snap> {
+        self.b.as_ref().map(|b| self.snapshot_of(&b.ice, &b.nom_rx))
+    }
+
+    /// Waits up to `wait` for something to arrive on any harness endpoint, then drains all of
+    /// them into the inbox.
     async fn poll(&mut self, wait: Duration) -> usize {
-        let _ = tokio::time::timeout(wait, async {
-            tokio::select! {
-                _ = self.p.readable() => {}
-                _ = self.s.readable() => {}
-            }
-        })
-        .await;
+        let mut first_frame: Option<(char, Vec<u8>)> = None;
+        {
+            let Env { p, s, b, tcp, .. } = self;
+            let pb = b.as_ref().map(|b| &b.pb);
+            let frames = tcp.as_mut().map(|t| &mut t.frames_rx);
+            let _ = tokio::time::timeout(wait, async {
+                tokio::select! {
+                    _ = p.readable() => {}
+                    _ = s.readable() => {}
+                    _ = async { match pb { Some(pb) => { let _ = pb.readable().await; } None => std::future::pending::<()>().await } } => {}
+                    f = async { match frames { Some(r) => r.recv().await, None => std::future::pending().await } } => { first_frame = f; }
+                }
+            })
+            .await;
+        }
         let mut n = 0;
         let mut buf = [0u8; 2048];
-        for (tag, sock) in [('P', &self.p), ('S', &self.s)] {
-            while let Ok((len, from)) = sock.try_recv_from(&mut buf) {
-                if from != self.agent {
-                    continue;
-                }
-                if let Some(p) = parse_stun(&buf[..len]) {
-                    self.inbox.push((tag, p, Instant::now()));
-                    n += 1;
+        let mut got: Vec<(char, Parsed)> = vec![];
+        {
+            let mut socks: Vec<(char, &UdpSocket)> = vec![('P', &self.p), ('S', &self.s)];
+            if let Some(b) = &self.b {
+                socks.push(('B', &b.pb));
+            }
+            for (tag, sock) in socks {
+                while let Ok((len, from)) = sock.try_recv_from(&mut buf) {
+                    if from != self.agent {
+                        continue;
+                    }
+                    if let Some(p) = parse_stun(&buf[..len]) {
+                        got.push((tag, p));
+                    }
                 }
             }
+        }
+        if let Some((tag, f)) = first_frame
+            && let Some(p) = parse_stun(&f)
+        {
+            got.push((tag, p));
+        }
+        if let Some(t) = self.tcp.as_mut() {
+            while let Ok((tag, f)) = t.frames_rx.try_recv() {
+                if let Some(p) = parse_stun(&f) {
+                    got.push((tag, p));
+                }
+            }
+        }
+        for (tag, p) in got {
+            self.inbox.push((tag, p, Instant::now()));
+            n += 1;
         }
         n
     }
@@ -562,42 +801,132 @@ impl Env {
         }
     }
 
-    /// Ordering barrier: authenticated Binding request without USE-CANDIDATE from P.
-    async fn barrier(&mut self, role: Role) -> bool {
+    /// Opens the TCP connection of P ('T') or of the stranger ('U') to the agent's passive
+    /// listener (idempotent) and starts de-framing what the agent writes on it.
+    async fn tcp_connect(&mut self, who: char) -> Result<(), String> {
+        let t = self.tcp.as_mut().ok_or("no TCP side in this kind")?;
+        let (sock, slot) = match who {
+            'T' => (&mut t.p_sock, &mut t.p_conn),
+            'U' => (&mut t.s_sock, &mut t.s_conn),
+            _ => return Err(format!("not a TCP endpoint: {who}")),
+        };
+        if slot.is_some() {
+            return Ok(());
+        }
+        let sock = sock.take().ok_or("TCP endpoint already consumed")?;
+        let stream = tokio::time::timeout(SETUP_DEADLINE, sock.connect(t.agent_tcp))
+            .await
+            .map_err(|_| "TCP connect to the agent's passive listener timed out".to_string())?
+            .map_err(|e| format!("TCP connect to the agent's passive listener: {e}"))?;
+        let _ = stream.set_nodelay(true);
+        let (mut rd, wr) = stream.into_split();
+        let tx = t.frames_tx.clone();
+        tokio::spawn(async move {
+            loop {
+                let mut l = [0u8; 2];
+                if rd.read_exact(&mut l).await.is_err() {
+                    break;
+                }
+                let mut b = vec![0u8; u16::from_be_bytes(l) as usize];
+                if rd.read_exact(&mut b).await.is_err() {
+                    break;
+                }
+                if tx.send((who, b)).is_err() {
+                    break;
+                }
+            }
+        });
+        *slot = Some(wr);
+        Ok(())
+    }
+
+    /// Sends one datagram / one RFC 4571 frame from the harness endpoint `from` to the agent.
+    async fn send_from(&mut self, from: char, payload: &[u8]) -> Result<(), String> {
+        match from {
+            'P' => self.p.send_to(payload, self.agent).await.map(|_| ()).map_err(|e| e.to_string()),
+            'S' => self.s.send_to(payload, self.agent).await.map(|_| ()).map_err(|e| e.to_string()),
+            'B' => {
+                let b = self.b.as_ref().ok_or("no bystander in this kind")?;
+                b.pb.send_to(payload, self.agent).await.map(|_| ()).map_err(|e| e.to_string())
+            }
+            'T' | 'U' => {
+                self.tcp_connect(from).await?;
+                let t = self.tcp.as_mut().ok_or("no TCP side in this kind")?;
+                let wr = if from == 'T' { t.p_conn.as_mut() } else { t.s_conn.as_mut() }.ok_or("TCP connection missing")?;
+                let mut framed = Vec::with_capacity(payload.len() + 2);
+                framed.extend_from_slice(&(payload.len() as u16).to_be_bytes());
+                framed.extend_from_slice(payload);
+                wr.write_all(&framed).await.map_err(|e| format!("TCP write: {e}"))
+            }
+            _ => Err(format!("unknown endpoint {from}")),
+        }
+    }
+
+    /// Ordering barrier behind the datagram under test (which travelled from `carrier`).
+    /// udp: authenticated Binding request without USE-CANDIDATE from P.
+    /// shared-udp-mux: the same P -> A, and the bystander's own PB -> B; both must be answered.
+    /// tcp-passive: a non-STUN frame on the carrier's connection, echoed by the data receiver.
+    async fn barrier(&mut self, role: Role, carrier: char) -> bool {
+        if self.kind == Kind::Tcp {
+            return self.barrier_data(carrier).await;
+        }
         let txid = self.next_txid();
-        let req = build_request(&txid, User::Right, Mi::Correct, 0, Fp::Good, false, Self::genuine_attr(role), &self.local);
+        let req = build_request(&txid, User::Right, Mi::Correct, 0, Fp::Good, false, Self::genuine_attr(role), &self.creds);
         if self.p.send_to(&req, self.agent).await.is_err() {
             return false;
         }
+        let mut txid_b = None;
+        if let Some(other) = self.creds.other.clone() {
+            let t = self.next_txid();
+            let req_b = build_bystander_barrier(&t, &other);
+            if self.send_from('B', &req_b).await.is_err() {
+                return false;
+            }
+            txid_b = Some(t);
+        }
         self.wait_inbox(Duration::from_millis(1500), |ib| {
-            ib.iter().any(|(tag, p, _)| *tag == 'P' && p.txid == txid && p.typ == T_BINDING_OK).then_some(())
+            let a = ib.iter().any(|(tag, p, _)| *tag == 'P' && p.txid == txid && p.typ == T_BINDING_OK);
+            let b = match txid_b {
+                Some(t) => ib.iter().any(|(tag, p, _)| *tag == 'B' && p.txid == t && p.typ == T_BINDING_OK),
+                None => true,
+            };
+            (a && b).then_some(())
         })
         .await
         .is_some()
     }
 
+    async fn barrier_data(&mut self, carrier: char) -> bool {
+        let nonce = self.next_txid();
+        // first byte >= 2: neither STUN nor anything the transport interprets itself
+        let mut payload = vec![0x80u8, b'C', b'0', b'6'];
+        payload.extend_from_slice(&nonce);
+        if self.send_from(carrier, &payload).await.is_err() {
+            return false;
+        }
+        let end = Instant::now() + Duration::from_millis(1500);
+        let Some(t) = self.tcp.as_mut() else { return false };
+        loop {
+            let left = end.saturating_duration_since(Instant::now());
+            match tokio::time::timeout(left, t.data_rx.recv()).await {
+                Ok(Some((d, _))) if d == payload => return true,
+                Ok(Some(_)) => continue,
+                _ => return false,
+            }
+        }
+    }
+
     fn teardown(self) {
         self.ice.stop();
         self.runner.abort();
+        if let Some(b) = self.b {
+            b.ice.stop();
+            b.runner.abort();
+        }
     }
 }
 
-async fn setup(st: St, role: Role, salt: u64) -> Result<Env, String> {
-    let config = RtcConfiguration {
-        bind_ip: Some("127.0.0.1".to_string()),
-        disable_ipv6: true,
-        ..Default::default()
-    };
-    if config.transport_mode != rustrtc::TransportMode::WebRtc || !config.ice_servers.is_empty() || config.enable_upnp {
-        return Err("default configuration is not plain WebRTC mode".into());
-    }
-    let (ice, runner) = IceTransport::new(config);
-    let runner = tokio::spawn(runner);
-    let nom_rx = ice.subscribe_nomination_complete();
-    ice.set_role(match role {
-        Role::Controlling => IceRole::Controlling,
-        Role::Controlled => IceRole::Controlled,
-    });
+async fn gather(ice: &IceTransport) -> Result<(), String> {
     ice.start_gathering().map_err(|e| format!("start_gathering: {e}"))?;
     let end = Instant::now() + SETUP_DEADLINE;
     while ice.gather_state() != IceGathererState::Complete {
@@ -606,31 +935,157 @@ async fn setup(st: St, role: Role, salt: u64) -> Result<Env, String> {
         }
         tokio::time::sleep(Duration::from_millis(1)).await;
     }
-    let locals = ice.local_candidates();
-    if locals.len() != 1 || locals[0].transport != "udp" || locals[0].typ != IceCandidateType::Host {
-        return Err(format!("expected exactly one UDP host candidate, got {locals:?}"));
+    Ok(())
+}
+
+async fn setup(kind: Kind, st: St, role: Role, salt: u64) -> Result<Env, String> {
+    let mut config = RtcConfiguration {
+        bind_ip: Some("127.0.0.1".to_string()),
+        disable_ipv6: true,
+        ..Default::default()
+    };
+    if config.transport_mode != rustrtc::TransportMode::WebRtc || !config.ice_servers.is_empty() || config.enable_upnp {
+        return Err("default configuration is not plain WebRTC mode".into());
     }
-    let agent = locals[0].address;
+    if config.ice_udp_mux || config.ice_tcp_policy != IceTcpPolicy::Disabled || config.tcp_port_range_start.is_some() {
+        return Err("default configuration is not the plain per-connection UDP socket".into());
+    }
+    match kind {
+        Kind::Udp => {}
+        Kind::Mux => {
+            config.ice_udp_mux = true;
+            config.ice_udp_mux_port = Some(next_mux_port());
+        }
+        Kind::Tcp => config.ice_tcp_policy = IceTcpPolicy::PassiveOnly,
+    }
+    let (ice, runner) = IceTransport::new(config.clone());
+    let runner = tokio::spawn(runner);
+    let nom_rx = ice.subscribe_nomination_complete();
+    ice.set_role(match role {
+        Role::Controlling => IceRole::Controlling,
+        Role::Controlled => IceRole::Controlled,
+    });
+    gather(&ice).await?;
+    let locals = ice.local_candidates();
+    let udp_hosts: Vec<_> = locals.iter().filter(|c| c.transport == "udp" && c.typ == IceCandidateType::Host).collect();
+    let tcp_hosts: Vec<_> = locals.iter().filter(|c| c.transport == "tcp" && c.typ == IceCandidateType::Host).collect();
+    let want_tcp = usize::from(kind == Kind::Tcp);
+    if udp_hosts.len() != 1 || tcp_hosts.len() != want_tcp || locals.len() != 1 + want_tcp {
+        return Err(format!("expected exactly one UDP host candidate and {want_tcp} TCP passive candidate(s), got {locals:?}"));
+    }
+    let agent = udp_hosts[0].address;
+    if kind == Kind::Mux && Some(agent.port()) != config.ice_udp_mux_port {
+        return Err(format!("host candidate {agent} is not on the shared mux port {:?}", config.ice_udp_mux_port));
+    }
     let p = UdpSocket::bind("127.0.0.1:0").await.map_err(|e| e.to_string())?;
     let s = UdpSocket::bind("127.0.0.1:0").await.map_err(|e| e.to_string())?;
     let p_addr = p.local_addr().unwrap();
     let local = ice.local_parameters();
+
+    // shared-udp-mux: the bystander joins the same shared socket
+    let mut bystander = None;
+    let mut other = None;
+    if kind == Kind::Mux {
+        let (bice, brunner) = IceTransport::new(config.clone());
+        let brunner = tokio::spawn(brunner);
+        let bnom = bice.subscribe_nomination_complete();
+        bice.set_role(IceRole::Controlled);
+        gather(&bice).await?;
+        let bl = bice.local_candidates();
+        if bl.len() != 1 || bl[0].address != agent || bl[0].transport != "udp" {
+            return Err(format!("bystander did not join the shared socket {agent}: {bl:?}"));
+        }
+        let pb = UdpSocket::bind("127.0.0.1:0").await.map_err(|e| e.to_string())?;
+        let bparams = bice.local_parameters();
+        if bparams.username_fragment == local.username_fragment {
+            return Err("bystander drew the same ufrag".into());
+        }
+        other = Some(bparams);
+        bystander = Some(Bystander { ice: bice, nom_rx: bnom, pb, runner: brunner });
+    }
+
+    // tcp-passive: fix both harness TCP addresses now, tap the transport's data path
+    let mut tcp = None;
+    let mut p_tcp_cand = None;
+    if kind == Kind::Tcp {
+        let mk = || -> Result<(TcpSocket, SocketAddr), String> {
+            let sock = TcpSocket::new_v4().map_err(|e| e.to_string())?;
+            sock.bind("127.0.0.1:0".parse().unwrap()).map_err(|e| e.to_string())?;
+            let a = sock.local_addr().map_err(|e| e.to_string())?;
+            Ok((sock, a))
+        };
+        let (p_sock, p_tcp_addr) = mk()?;
+        let (s_sock, s_tcp_addr) = mk()?;
+        let (frames_tx, frames_rx) = mpsc::unbounded_channel();
+        let (data_tx, data_rx) = mpsc::unbounded_channel();
+        ice.set_data_receiver(Arc::new(DataTap { tx: data_tx })).await;
+        p_tcp_cand = Some(IceCandidate::tcp(p_tcp_addr, 1, "active"));
+        tcp = Some(TcpSide {
+            agent_tcp: tcp_hosts[0].address,
+            p_addr: p_tcp_addr,
+            s_addr: s_tcp_addr,
+            p_sock: Some(p_sock),
+            s_sock: Some(s_sock),
+            p_conn: None,
+            s_conn: None,
+            frames_tx,
+            frames_rx,
+            data_rx,
+        });
+    }
+
     let remote = IceParameters::new(PEER_UFRAG, PEER_PWD);
     let mut cand = IceCandidate::host(p_addr, 1);
     if st == St::ConnectedRelay {
         cand.typ = IceCandidateType::Relay;
         cand.priority = (65_535 << 8) | 255;
     }
-    let mut env = Env { ice, agent, p, s, local, nom_rx, inbox: vec![], ctr: 0, salt, l1: None, l2: None, runner };
+    let mut env = Env {
+        kind,
+        ice,
+        agent,
+        p,
+        s,
+        creds: Creds { local, other },
+        nom_rx,
+        inbox: vec![],
+        ctr: 0,
+        salt,
+        l1: None,
+        l2: None,
+        runner,
+        b: bystander,
+        tcp,
+    };
+
+    // the bystander: Checking against its own genuine peer PB, whatever A's state
+    if let Some(b) = &env.b {
+        let pb_addr = b.pb.local_addr().unwrap();
+        b.ice.add_remote_candidate(IceCandidate::host(pb_addr, 1));
+        b.ice.start(IceParameters::new(PEERB_UFRAG, PEERB_PWD)).map_err(|e| format!("bystander start: {e}"))?;
+        env.wait_inbox(SETUP_DEADLINE, |ib| ib.iter().any(|(t, p, _)| *t == 'B' && p.typ == T_BINDING_REQ).then_some(()))
+            .await
+            .ok_or("bystander never sent a connectivity check to PB")?;
+        if env.b.as_ref().unwrap().ice.state() != IceTransportState::Checking {
+            return Err("bystander is not Checking".into());
+        }
+    }
+
     if st == St::New {
         env.ice.set_remote_parameters(remote);
         env.ice.add_remote_candidate(cand);
+        if let Some(c) = p_tcp_cand {
+            env.ice.add_remote_candidate(c);
+        }
         if env.ice.state() != IceTransportState::New {
             return Err("state left New during setup".into());
         }
         return Ok(env);
     }
     env.ice.add_remote_candidate(cand);
+    if let Some(c) = p_tcp_cand {
+        env.ice.add_remote_candidate(c);
+    }
     if st == St::Restarted {
         env.ice.start(IceParameters::new(OLD_PEER_UFRAG, OLD_PEER_PWD)).map_err(|e| format!("start(old): {e}"))?;
         let l0 = env
@@ -640,7 +1095,7 @@ async fn setup(st: St, role: Role, salt: u64) -> Result<Env, String> {
         let _ = l0;
         // a genuine check of the old generation is processed while the old credentials are current
         let txid = env.next_txid();
-        let old = build_request(&txid, User::Stale, Mi::Correct, 0, Fp::Good, false, Env::genuine_attr(role), &env.local);
+        let old = build_request(&txid, User::Stale, Mi::Correct, 0, Fp::Good, false, Env::genuine_attr(role), &env.creds);
         env.p.send_to(&old, env.agent).await.map_err(|e| e.to_string())?;
         env.wait_inbox(SETUP_DEADLINE, |ib| ib.iter().any(|(t, p, _)| *t == 'P' && p.txid == txid && p.typ == T_BINDING_OK).then_some(()))
             .await
@@ -660,6 +1115,38 @@ async fn setup(st: St, role: Role, salt: u64) -> Result<Env, String> {
     if st == St::Checking || st == St::Restarted {
         return Ok(env);
     }
+    if st == St::ConnectedTcp {
+        if kind != Kind::Tcp || role != Role::Controlled {
+            return Err("connected-over-tcp exists only for the controlled role of the tcp-passive kind".into());
+        }
+        // the genuine controlling peer connects from its advertised TCP address and nominates
+        let txid = env.next_txid();
+        let nom = build_request(&txid, User::Right, Mi::Correct, 0, Fp::Good, true, RoleAttr::Controlling, &env.creds);
+        env.send_from('T', &nom).await?;
+        env.wait_inbox(SETUP_DEADLINE, |ib| ib.iter().any(|(t, p, _)| *t == 'T' && p.txid == txid && p.typ == T_BINDING_OK).then_some(()))
+            .await
+            .ok_or("genuine authenticated nomination over TCP was not answered")?;
+        let ok = env
+            .wait_cond(SETUP_DEADLINE, |e| {
+                e.ice.state() == IceTransportState::Connected
+                    && *e.nom_rx.borrow() == Some(true)
+                    && e.ice.get_selected_pair().is_some_and(|p| p.local.transport == "tcp" && Some(p.remote.address) == e.tcp.as_ref().map(|t| t.p_addr))
+            })
+            .await;
+        if !ok {
+            return Err("genuine authenticated nomination over TCP did not select the TCP pair".into());
+        }
+        return Ok(env);
+    }
+    if kind == Kind::Mux {
+        // The shared socket routes a response by its source address and learns P's address only
+        // from a Binding request of P (the agent's own checks leave through the raw socket and
+        // record nothing): the genuine peer's own authenticated check comes first, as it would in
+        // a real session.
+        if !env.barrier(role, 'P').await {
+            return Err("genuine peer's own check was not answered through the shared socket".into());
+        }
+    }
     let ok = env.success_response(&l1);
     env.p.send_to(&ok, env.agent).await.map_err(|e| e.to_string())?;
     match role {
@@ -671,7 +1158,7 @@ async fn setup(st: St, role: Role, salt: u64) -> Result<Env, String> {
                 return Ok(env);
             }
             let txid = env.next_txid();
-            let nom = build_request(&txid, User::Right, Mi::Correct, 0, Fp::Good, true, RoleAttr::Controlling, &env.local);
+            let nom = build_request(&txid, User::Right, Mi::Correct, 0, Fp::Good, true, RoleAttr::Controlling, &env.creds);
             env.p.send_to(&nom, env.agent).await.map_err(|e| e.to_string())?;
             env.wait_inbox(SETUP_DEADLINE, |ib| ib.iter().any(|(t, p, _)| *t == 'P' && p.txid == txid && p.typ == T_BINDING_OK).then_some(()))
                 .await
@@ -711,7 +1198,9 @@ struct Outcome {
     case: Case,
     /// "success" | "error-<code>" | "none"
     answer: String,
-    effects: Vec<&'static str>,
+    /// effects on the transport under test; effects on the bystander transport of the
+    /// shared-udp-mux kind are listed as "bystander-<effect>"
+    effects: Vec<String>,
     other_state_change: bool,
     renotified: bool,
     barrier_ok: bool,
@@ -719,6 +1208,10 @@ struct Outcome {
     live_still_outstanding: Option<bool>,
     before: Snap,
     after: Snap,
+    /// shared-udp-mux kind: the bystander transport before / after
+    bystander: Option<(Snap, Snap)>,
+    /// `get_selected_socket()` differs (recorded, not judged)
+    socket_changed: bool,
     violates: bool,
     signature: String,
 }
@@ -746,17 +1239,26 @@ fn case_salt(c: &Case, attempt: u32) -> u64 {
 }
 
 async fn run_req(c: ReqCase, attempt: u32) -> Result<Outcome, String> {
-    let mut env = setup(c.st, c.role, case_salt(&Case::Req(c), attempt)).await?;
+    let mut env = setup(c.kind, c.st, c.role, case_salt(&Case::Req(c), attempt)).await?;
+    // the harness endpoint the request travels from
+    let tag = match (c.kind, c.src) {
+        (Kind::Tcp, Src::Known) => 'T',
+        (Kind::Tcp, Src::Stranger) => 'U',
+        (_, Src::Known) => 'P',
+        (_, Src::Stranger) => 'S',
+        (_, Src::OtherPeer) => 'B',
+    };
+    if c.kind == Kind::Tcp {
+        // the connection exists before the first snapshot: the difference is the request's alone
+        env.tcp_connect(tag).await?;
+    }
     let before = env.snapshot();
+    let before_b = env.snapshot_bystander();
     let _ = env.nom_rx.borrow_and_update();
     let txid = env.next_txid();
-    let bytes = build_request(&txid, c.user, c.mi, c.flip, c.fp, c.uc, c.attr, &env.local);
-    let (tag, sock) = match c.src {
-        Src::Known => ('P', &env.p),
-        Src::Stranger => ('S', &env.s),
-    };
-    sock.send_to(&bytes, env.agent).await.map_err(|e| e.to_string())?;
-    let barrier_ok = env.barrier(c.role).await;
+    let bytes = build_request(&txid, c.user, c.mi, c.flip, c.fp, c.uc, c.attr, &env.creds);
+    env.send_from(tag, &bytes).await?;
+    let barrier_ok = env.barrier(c.role, tag).await;
     if !barrier_ok {
         // fallback: response or 60 ms of silence
         loop {
@@ -774,11 +1276,23 @@ async fn run_req(c: ReqCase, attempt: u32) -> Result<Outcome, String> {
         .map(|(_, p, _)| if p.typ == T_BINDING_OK { "success".to_string() } else { format!("error-{}", p.error_code.unwrap_or(0)) })
         .unwrap_or_else(|| "none".to_string());
     let after = env.snapshot();
+    let after_b = env.snapshot_bystander();
     let renotified = env.nom_rx.has_changed().unwrap_or(false) && before.nomination == after.nomination;
     env.teardown();
-    let (effects, other_state_change) = diff(&before, &after);
-    let violates = !c.authenticated() && !effects.is_empty();
-    let signature = format!(
+    let (own, mut other_state_change) = diff(&before, &after);
+    let mut effects: Vec<String> = own.iter().map(|e| e.to_string()).collect();
+    let mut violates = !c.authenticated() && !own.is_empty();
+    let mut socket_changed = before.socket != after.socket;
+    let mut bystander = None;
+    if let (Some(bb), Some(ab)) = (before_b, after_b) {
+        let (on_b, other_b) = diff(&bb, &ab);
+        other_state_change |= other_b;
+        socket_changed |= bb.socket != ab.socket;
+        violates |= !c.authenticated_for_bystander() && !on_b.is_empty();
+        effects.extend(on_b.iter().map(|e| format!("bystander-{e}")));
+        bystander = Some((bb, ab));
+    }
+    let mut signature = format!(
         "auth={}/{};effect={};state={};role={};source={}",
         c.user.name(),
         c.mi.name(),
@@ -787,6 +1301,9 @@ async fn run_req(c: ReqCase, attempt: u32) -> Result<Outcome, String> {
         c.role.name(),
         c.src.name()
     );
+    if c.kind != Kind::Udp {
+        signature.push_str(&format!(";kind={}", c.kind.name()));
+    }
     Ok(Outcome {
         case: Case::Req(c),
         answer,
@@ -797,9 +1314,74 @@ async fn run_req(c: ReqCase, attempt: u32) -> Result<Outcome, String> {
         live_still_outstanding: None,
         before,
         after,
+        bystander,
+        socket_changed,
         violates,
         signature,
     })
+}
+
+/// Informational probe, NOT part of the verdict (no STUN message is the cause, so the property as
+/// stated does not cover it): tcp-passive kind, controlled role, Connected through the agent's own
+/// UDP check, nomination still open.  `PeerConnection` calls `nudge_passive_tcp_nomination()` as
+/// soon as ICE reports Connected; the probe does the same after (a) nothing, (b) a stranger merely
+/// opened a TCP connection to the passive listener, (c) the stranger also wrote an unauthenticated
+/// Binding request, and records what the transport reports afterwards and after one more (non-STUN)
+/// frame of the stranger.
+async fn nudge_probe_one(variant: &str) -> Result<Value, String> {
+    let mut env = setup(Kind::Tcp, St::ConnPending, Role::Controlled, vh::fnv1a(variant.as_bytes())).await?;
+    if variant != "no-tcp-connection" {
+        env.tcp_connect('U').await?;
+    }
+    if variant == "stranger-connection-and-unauthenticated-request" {
+        let txid = env.next_txid();
+        let x = build_request(&txid, User::Right, Mi::Absent, 0, Fp::Good, true, RoleAttr::Controlling, &env.creds);
+        env.send_from('U', &x).await?;
+    }
+    if variant != "no-tcp-connection" {
+        // the accept (and the request) have been handled once the barrier frame comes back
+        if !env.barrier_data('U').await {
+            return Err("barrier frame on the stranger's connection was not echoed".into());
+        }
+    }
+    let before = env.snapshot();
+    env.ice.nudge_passive_tcp_nomination();
+    // the nudge runs in a spawned task; it is finished when nomination flips or after 100 ms
+    env.wait_cond(Duration::from_millis(100), |e| e.nom_rx.borrow().is_some()).await;
+    let after = env.snapshot();
+    // The nudge task needs the connection's read half, which the connection's read loop holds
+    // while it waits for input: it can only proceed once the stranger writes one more frame.
+    let mut after_frame = None;
+    if variant != "no-tcp-connection" {
+        let _ = env.barrier_data('U').await;
+        env.wait_cond(Duration::from_millis(100), |e| e.nom_rx.borrow().is_some()).await;
+        after_frame = Some(env.snapshot());
+    }
+    env.teardown();
+    let (effects, _) = diff(&before, &after);
+    let last = after_frame.as_ref().unwrap_or(&after);
+    let (effects_last, _) = diff(&before, last);
+    Ok(json!({"variant": variant, "before": before.json(), "after_nudge": after.json(), "effects_after_nudge": effects,
+              "after_one_more_frame_of_the_stranger": after_frame.as_ref().map(|s| s.json()),
+              "effects_after_one_more_frame": effects_last,
+              "selected_socket_changed": before.socket != last.socket}))
+}
+
+fn nudge_probe() -> Value {
+    let mut out = vec![];
+    for variant in ["no-tcp-connection", "stranger-bare-connection", "stranger-connection-and-unauthenticated-request"] {
+        let rt = match tokio::runtime::Builder::new_current_thread().enable_all().build() {
+            Ok(rt) => rt,
+            Err(e) => return json!({"error": format!("runtime: {e}")}),
+        };
+        let r = vh::catch(std::panic::AssertUnwindSafe(|| rt.block_on(nudge_probe_one(variant))));
+        out.push(match r {
+            Ok(Ok(v)) => v,
+            Ok(Err(e)) => json!({"variant": variant, "error": e}),
+            Err(p) => json!({"variant": variant, "panic": p.to_string()}),
+        });
+    }
+    Value::Array(out)
 }
 
 fn resp_ids_available(st: St, role: Role) -> (bool, bool) {
@@ -814,7 +1396,7 @@ fn resp_ids_available(st: St, role: Role) -> (bool, bool) {
 }
 
 async fn run_resp(c: RespCase, attempt: u32) -> Result<Outcome, String> {
-    let mut env = setup(c.st, c.role, case_salt(&Case::Resp(c), attempt)).await?;
+    let mut env = setup(Kind::Udp, c.st, c.role, case_salt(&Case::Resp(c), attempt)).await?;
     let (live, stale) = match (c.st, c.role) {
         (St::Checking, _) => (env.l1, None),
         (St::ConnPending, Role::Controlling) => (env.l2, env.l1),
@@ -837,7 +1419,7 @@ async fn run_resp(c: RespCase, attempt: u32) -> Result<Outcome, String> {
     };
     let t_inject = Instant::now();
     sock.send_to(&bytes, env.agent).await.map_err(|e| e.to_string())?;
-    let barrier_ok = env.barrier(c.role).await;
+    let barrier_ok = env.barrier(c.role, 'P').await;
     if !barrier_ok {
         loop {
             if env.poll(Duration::from_millis(60)).await == 0 {
@@ -875,13 +1457,15 @@ async fn run_resp(c: RespCase, attempt: u32) -> Result<Outcome, String> {
         }
     };
     env.teardown();
-    let (mut effects, other_state_change) = diff(&before, &after);
+    let (effects, other_state_change) = diff(&before, &after);
+    let mut effects: Vec<String> = effects.iter().map(|e| e.to_string()).collect();
     if c.tx != TxKind::Live && live_still_outstanding == Some(false) {
-        effects.push("tx-completed");
+        effects.push("tx-completed".into());
     }
     if c.tx == TxKind::Live && live_still_outstanding == Some(false) && effects.is_empty() {
-        effects.push("tx-completed");
+        effects.push("tx-completed".into());
     }
+    let socket_changed = before.socket != after.socket;
     let violates = c.tx != TxKind::Live && !effects.is_empty();
     let signature = format!(
         "resp={}/{};effect={};state={};role={};source={}",
@@ -902,6 +1486,8 @@ async fn run_resp(c: RespCase, attempt: u32) -> Result<Outcome, String> {
         live_still_outstanding,
         before,
         after,
+        bystander: None,
+        socket_changed,
         violates,
         signature,
     })
@@ -940,6 +1526,9 @@ fn outcome_json(o: &Outcome) -> Value {
         "effects": o.effects,
         "before": o.before.json(),
         "after": o.after.json(),
+        "bystander_before": o.bystander.as_ref().map(|b| b.0.json()),
+        "bystander_after": o.bystander.as_ref().map(|b| b.1.json()),
+        "selected_socket_changed": o.socket_changed,
         "barrier_answered": o.barrier_ok,
         "live_transaction_still_retransmitted": o.live_still_outstanding,
         "nomination_renotified_same_value": o.renotified,
@@ -951,27 +1540,51 @@ fn outcome_json(o: &Outcome) -> Value {
 
 // ───────────────────────────── enumeration ─────────────────────────────
 
+/// States that exist for a socket kind.  Not reached on the new kinds: `connected-relaypeer` and
+/// `checking-after-remote-restart` (properties of the remote candidate list / the credential
+/// generation, independent of the socket a request arrives on; enumerated on the udp kind);
+/// `connected-over-tcp` exists only on tcp-passive for the controlled role (rustrtc's controlling
+/// agent never sends checks on an inbound TCP connection, so it cannot nominate a passive pair).
+fn state_exists(kind: Kind, st: St, role: Role) -> bool {
+    match kind {
+        Kind::Udp => st != St::ConnectedTcp,
+        Kind::Mux => matches!(st, St::New | St::Checking | St::ConnPending | St::Connected),
+        Kind::Tcp => matches!(st, St::New | St::Checking | St::ConnPending | St::Connected) || (st == St::ConnectedTcp && role == Role::Controlled),
+    }
+}
+
 fn enumerate(tier: vh::Tier) -> Vec<Case> {
     let quick = matches!(tier, vh::Tier::Quick);
     let mut v = vec![];
     // simplest first: this order makes the first case of a signature its minimal representative
-    for &st in St::ALL {
-        for &role in Role::ALL {
-            for &src in Src::ALL {
-                for uc in [false, true] {
-                    for &user in User::ALL {
-                        if user == User::Stale && st != St::Restarted {
-                            continue;
-                        }
-                        for &mi in Mi::ALL {
-                            let fps: &[Fp] = if quick { &[Fp::Good] } else { Fp::ALL };
-                            for &fp in fps {
-                                let attrs: Vec<RoleAttr> = if quick { vec![Env::genuine_attr(role)] } else { RoleAttr::ALL.to_vec() };
-                                for attr in attrs {
-                                    // in the product the bit-flip class is represented by its two extreme positions
-                                    let flips: &[u8] = if mi == Mi::BitFlip { &[0, 159] } else { &[0] };
-                                    for &flip in flips {
-                                        v.push(Case::Req(ReqCase { user, mi, flip, fp, uc, attr, src, st, role }));
+    for &kind in Kind::ALL {
+        for &st in St::ALL {
+            for &role in Role::ALL {
+                if !state_exists(kind, st, role) {
+                    continue;
+                }
+                for &src in Src::ALL {
+                    if src == Src::OtherPeer && kind != Kind::Mux {
+                        continue;
+                    }
+                    for uc in [false, true] {
+                        for &user in User::ALL {
+                            if (user == User::Stale && st != St::Restarted) || (user == User::Other && kind != Kind::Mux) {
+                                continue;
+                            }
+                            for &mi in Mi::ALL {
+                                if mi == Mi::OtherPwd && kind != Kind::Mux {
+                                    continue;
+                                }
+                                let fps: &[Fp] = if quick { &[Fp::Good] } else { Fp::ALL };
+                                for &fp in fps {
+                                    let attrs: Vec<RoleAttr> = if quick { vec![Env::genuine_attr(role)] } else { RoleAttr::ALL.to_vec() };
+                                    for attr in attrs {
+                                        // in the product the bit-flip class is represented by its two extreme positions
+                                        let flips: &[u8] = if mi == Mi::BitFlip { &[0, 159] } else { &[0] };
+                                        for &flip in flips {
+                                            v.push(Case::Req(ReqCase { user, mi, flip, fp, uc, attr, src, st, role, kind }));
+                                        }
                                     }
                                 }
                             }
@@ -996,6 +1609,7 @@ fn enumerate(tier: vh::Tier) -> Vec<Case> {
             src: Src::Stranger,
             st: St::New,
             role: Role::Controlled,
+            kind: Kind::Udp,
         }));
     }
     for &st in &[St::Checking, St::ConnPending, St::Connected] {
@@ -1050,12 +1664,17 @@ fn main() {
         std::process::exit(replay(p));
     }
     let mut rep = vh::Report::new("C06", &cli, "exploration");
-    let cases = enumerate(cli.tier);
+    let mut cases = enumerate(cli.tier);
+    // development aid (never set by ./check): restrict the run to one socket kind
+    let dev_filter = std::env::var("C06_ONLY_KIND").ok().and_then(|k| Kind::parse(&k));
+    if let Some(k) = dev_filter {
+        cases.retain(|c| matches!(c, Case::Req(r) if r.kind == k));
+    }
     let n_req = cases.iter().filter(|c| matches!(c, Case::Req(_))).count();
     let n_resp = cases.len() - n_req;
     let threads = std::env::var("C06_THREADS").ok().and_then(|s| s.parse().ok()).unwrap_or(16usize);
     let pool = rayon::ThreadPoolBuilder::new().num_threads(threads).build().unwrap();
-    let results: Vec<(Case, Result<Outcome, String>)> = pool.install(|| cases.par_iter().map(|c| (*c, run_case(*c))).collect());
+    let results: Vec<(Case, Result<Outcome, String>)> = pool.install(|| cases.par_iter().with_max_len(1).map(|c| (*c, run_case(*c))).collect());
 
     let mut failed = vec![];
     let mut outs: Vec<Outcome> = vec![];
@@ -1141,6 +1760,50 @@ fn main() {
     let mut nonlive_resp = 0u64;
     let mut nontrivial = 0u64;
     let mut outcome_classes: BTreeSet<String> = BTreeSet::new();
+    // per socket kind
+    #[derive(Default)]
+    struct KindStat {
+        cases: u64,
+        judged: u64,
+        positive: u64,
+        positive_with_effect: u64,
+        bystander_positive: u64,
+        bystander_positive_with_effect: u64,
+        barrier_fallbacks: u64,
+        processed: u64,
+        violating: u64,
+        socket_changed_unauthenticated: u64,
+        states: BTreeSet<String>,
+        effects: BTreeMap<String, u64>,
+    }
+    let mut by_kind: BTreeMap<&'static str, KindStat> = BTreeMap::new();
+    for o in &outs {
+        if let Case::Req(c) = o.case {
+            let k = by_kind.entry(c.kind.name()).or_default();
+            k.cases += 1;
+            k.states.insert(format!("{}/{}", c.st.name(), c.role.name()));
+            let eff = if o.effects.is_empty() { "none".to_string() } else { o.effects.join("+") };
+            *k.effects.entry(eff).or_default() += 1;
+            let own_effect = o.effects.iter().any(|e| !e.starts_with("bystander-"));
+            let b_effect = o.effects.iter().any(|e| e.starts_with("bystander-"));
+            if c.authenticated() {
+                k.positive += 1;
+                k.positive_with_effect += u64::from(own_effect);
+            } else if c.authenticated_for_bystander() {
+                k.bystander_positive += 1;
+                k.bystander_positive_with_effect += u64::from(b_effect);
+            }
+            if !c.authenticated() || c.kind == Kind::Mux {
+                k.judged += 1;
+            }
+            if !c.authenticated() && !c.authenticated_for_bystander() && o.socket_changed {
+                k.socket_changed_unauthenticated += 1;
+            }
+            k.barrier_fallbacks += u64::from(!o.barrier_ok);
+            k.processed += u64::from(o.barrier_ok || o.answer != "none");
+            k.violating += u64::from(o.violates);
+        }
+    }
     for o in &outs {
         let eff = if o.effects.is_empty() { "none".to_string() } else { o.effects.join("+") };
         *effect_hist.entry(eff.clone()).or_default() += 1;
@@ -1159,9 +1822,9 @@ fn main() {
                 *answers.entry(o.answer.clone()).or_default() += 1;
                 if o.barrier_ok || o.answer != "none" {
                     nontrivial += 1;
-                    classes.insert(format!("req;{}/{};{};{};{};uc={};{};{}", c.user.name(), c.mi.name(), c.st.name(), c.role.name(), c.src.name(), c.uc, o.answer, eff));
+                    classes.insert(format!("req;{};{}/{};{};{};{};uc={};{};{}", c.kind.name(), c.user.name(), c.mi.name(), c.st.name(), c.role.name(), c.src.name(), c.uc, o.answer, eff));
                 }
-                outcome_classes.insert(format!("req;auth={};{};{};{};uc={};{};{}", c.authenticated(), c.st.name(), c.role.name(), c.src.name(), c.uc, o.answer, eff));
+                outcome_classes.insert(format!("req;{};auth={}/{};{};{};{};uc={};{};{}", c.kind.name(), c.authenticated(), c.authenticated_for_bystander(), c.st.name(), c.role.name(), c.src.name(), c.uc, o.answer, eff));
                 if c.authenticated() {
                     positive_controls += 1;
                     if !o.effects.is_empty() {
@@ -1209,27 +1872,62 @@ fn main() {
     rep.set("distinct_outcome_classes", outcome_classes.len() as u64);
     rep.set("effect_histogram", json!(effect_hist));
     rep.set("answers_to_requests", json!(answers));
+    // socket-kind dimension
+    let kind_json = |f: &dyn Fn(&KindStat) -> Value| -> Value { Value::Object(by_kind.iter().map(|(k, st)| (k.to_string(), f(st))).collect()) };
+    rep.set("socket_kinds_exercised", by_kind.len() as u64);
+    rep.set("request_cases_by_socket_kind", kind_json(&|k| json!(k.cases)));
+    rep.set("judged_requests_by_socket_kind", kind_json(&|k| json!(k.judged)));
+    rep.set("authenticated_controls_by_socket_kind", kind_json(&|k| json!(k.positive)));
+    rep.set("authenticated_controls_with_effect_by_socket_kind", kind_json(&|k| json!(k.positive_with_effect)));
+    rep.set("bystander_authenticated_controls", by_kind.get(Kind::Mux.name()).map(|k| k.bystander_positive).unwrap_or(0));
+    rep.set("bystander_authenticated_controls_with_effect", by_kind.get(Kind::Mux.name()).map(|k| k.bystander_positive_with_effect).unwrap_or(0));
+    rep.set("cases_processed_by_agent_by_socket_kind", kind_json(&|k| json!(k.processed)));
+    rep.set("barrier_fallbacks_to_silence_by_socket_kind", kind_json(&|k| json!(k.barrier_fallbacks)));
+    rep.set("violating_cases_by_socket_kind", kind_json(&|k| json!(k.violating)));
+    rep.set("selected_socket_changed_after_unauthenticated_request_by_socket_kind", kind_json(&|k| json!(k.socket_changed_unauthenticated)));
+    rep.set("states_and_roles_by_socket_kind", kind_json(&|k| json!(k.states)));
+    rep.set("effect_histogram_by_socket_kind", kind_json(&|k| json!(k.effects)));
+    if dev_filter.is_none() || dev_filter == Some(Kind::Tcp) {
+        rep.set("informational_tcp_nudge_probe_not_judged", nudge_probe());
+    }
+    rep.set(
+        "states_not_reached_by_socket_kind",
+        json!({
+            "shared-udp-mux": "connected-relaypeer and checking-after-remote-restart (properties of the remote candidate list / credential generation, socket independent; enumerated on the udp kind)",
+            "tcp-passive": "connected-relaypeer and checking-after-remote-restart as above; connected-over-tcp exists for the controlled role only (a controlling rustrtc agent never sends checks on an inbound TCP connection, so a passive pair cannot be nominated by it); new/checking/connected-unnominated/connected are reached through the transport's UDP peer while the request under test arrives on the TCP listener",
+        }),
+    );
     rep.set(
         "rule",
-        "a case is non-trivial when the agent demonstrably processed the datagram (it answered it, or the ordering barrier sent behind it was answered); distinct_nontrivial counts the distinct cases that are non-trivial in this sense, i.e. distinct (auth class, state, role, source, USE-CANDIDATE, answer, effect set) resp. (response class, txid kind, state, role, source, effect set) tuples observed; distinct_outcome_classes drops the auth class and keeps only authenticated yes/no",
+        "a case is non-trivial when the agent demonstrably processed the datagram (it answered it, or the ordering barrier sent behind it was answered); distinct_nontrivial counts the distinct cases that are non-trivial in this sense, i.e. distinct (auth class, state, role, source, USE-CANDIDATE, answer, effect set) resp. (response class, txid kind, state, role, source, effect set) tuples observed, per socket kind; distinct_outcome_classes drops the auth class and keeps only authenticated yes/no (for the transport under test / for the bystander)",
     );
     rep.set("exhaustive", true);
-    rep.set("caps_hit", json!([]));
+    rep.set("caps_hit", match dev_filter {
+        Some(k) => json!([format!("development filter C06_ONLY_KIND={} (not a registered run)", k.name())]),
+        None => json!([]),
+    });
+    if dev_filter.is_some() {
+        rep.set("exhaustive", false);
+    }
     rep.set(
         "space",
         format!(
-            "requests: USERNAME{{3}} x MI{{5 + bitflip first/last}} x FINGERPRINT{{{}}} x USE-CANDIDATE{{2}} x role-attr{{{}}} x source{{2}} x state{{5}} x role{{2}} + single-bit MI corruptions in one context = {}; responses: class{{2}} x txid{{random,stale,live where they exist}} x source{{2}} x state{{checking,connected-unnominated,connected}} x role{{2}} = {}",
-            if matches!(cli.tier, vh::Tier::Quick) { 1 } else { 3 },
-            if matches!(cli.tier, vh::Tier::Quick) { 1 } else { 2 },
-            n_req,
-            n_resp
+            "requests, udp kind: USERNAME{{3; +stale-remote-ufrag after a remote restart}} x MI{{5 + bitflip first/last}} x FINGERPRINT{{{fp}}} x USE-CANDIDATE{{2}} x role-attr{{{ra}}} x source{{2}} x state{{6}} x role{{2}} + single-bit MI corruptions in one context; shared-udp-mux kind (two transports on one shared socket): USERNAME{{none, wrong, other transport's, right}} x MI{{5 + bitflip first/last + other transport's password}} x FINGERPRINT{{{fp}}} x USE-CANDIDATE{{2}} x role-attr{{{ra}}} x source{{A's peer, stranger, the other transport's peer}} x {mux_sr}; tcp-passive kind (RFC 4571 frames on accepted connections): USERNAME{{3}} x MI{{5 + bitflip first/last}} x FINGERPRINT{{{fp}}} x USE-CANDIDATE{{2}} x role-attr{{{ra}}} x source{{known connection, second connection}} x {tcp_sr}; together = {n_req} ({by}); responses (udp kind): class{{2}} x txid{{random,stale,live where they exist}} x source{{2}} x state{{checking,connected-unnominated,connected}} x role{{2}} = {n_resp}",
+            fp = if matches!(cli.tier, vh::Tier::Quick) { 1 } else { 3 },
+            ra = if matches!(cli.tier, vh::Tier::Quick) { 1 } else { 2 },
+            mux_sr = "state{new,checking,connected-unnominated,connected} x role{2}",
+            tcp_sr = "(state{new,checking,connected-unnominated,connected} x role{2} + connected-over-tcp x controlled)",
+            by = by_kind.iter().map(|(k, st)| format!("{k} {}", st.cases)).collect::<Vec<_>>().join(", "),
         ),
     );
-    rep.assume("real time on loopback; quiescence is established by an ordering barrier (authenticated no-op Binding request from the known candidate, answered by the same sequential read loop), with a 60 ms-silence fallback that is counted");
+    rep.assume("real time on loopback; quiescence is established by an ordering barrier (udp kind: authenticated no-op Binding request from the known candidate, answered by the same sequential read loop), with a 60 ms-silence fallback that is counted");
     rep.assume("'wrong USERNAME' is a wrong local ufrag; a right local ufrag with a wrong remote ufrag is not enumerated (RFC 8445 leaves it to the implementation)");
     rep.assume("'random' MESSAGE-INTEGRITY is one fixed arbitrary 20-byte value per case (derived from the case id), not sampled");
     rep.assume("in state New the remote ICE parameters are installed with set_remote_parameters so that 'right USERNAME' is defined");
-    rep.assume("UDP host socket only; shared-UDP mux, TCP and TURN socket kinds are not exercised");
+    rep.assume("socket kinds: per-connection UDP host socket, process-wide shared UDP mux socket (own port per case, two transports registered) and RFC 6544 passive TCP listener (per-connection listener, RFC 4571 framing); not exercised: the single-port shared TCP listener (tcp_port_range_start == tcp_port_range_end), agent-initiated (active) TCP connections and TURN relays (need a live server); the response half runs on the udp kind only");
+    rep.assume("shared-udp-mux: quiescence = authenticated no-op barriers P->A and PB->B behind the datagram under test (one mux receive loop, one FIFO and one read loop per session); the bystander B is always controlled/Checking; before A's own check is answered P sends one genuine authenticated check, because the shared socket learns P's address only from a Binding request of P");
+    rep.assume("tcp-passive: quiescence = a non-STUN frame written behind the request on the same TCP connection and echoed through the public set_data_receiver hook (the connection's read loop handles frames strictly in order); P's TCP source address is bound in advance and advertised as a TCP active remote candidate, the stranger is a second connection from an unlisted address; a bare TCP connect (no STUN) is established before the first snapshot");
+    rep.assume("get_selected_socket() is recorded before/after and counted, not judged (the property names the selected pair, not the socket)");
     rep.assume("a response with a live transaction id is recorded but not judged, whatever its source (the property only requires a matching outstanding transaction)");
     // samples: one violating, one clean unauthenticated, one authenticated, one response
     let mut picks: Vec<&Outcome> = vec![];
@@ -1248,6 +1946,18 @@ fn main() {
     if let Some(o) = outs.iter().find(|o| matches!(o.case, Case::Resp(c) if c.tx == TxKind::Stale)) {
         picks.push(o);
     }
+    for kind in [Kind::Mux, Kind::Tcp] {
+        // per new kind: an authenticated control with effect and a judged stranger request
+        if let Some(o) = outs.iter().find(|o| matches!(o.case, Case::Req(c) if c.kind == kind && c.authenticated() && c.uc) && !o.effects.is_empty()) {
+            picks.push(o);
+        }
+        if let Some(o) = outs.iter().find(|o| matches!(o.case, Case::Req(c) if c.kind == kind && !c.authenticated() && c.user == User::Right && c.uc && c.src == Src::Stranger)) {
+            picks.push(o);
+        }
+    }
+    if let Some(o) = outs.iter().find(|o| matches!(o.case, Case::Req(c) if c.authenticated_for_bystander() && c.uc) && !o.effects.is_empty()) {
+        picks.push(o);
+    }
     for o in picks {
         rep.sample(outcome_json(o));
     }
@@ -1256,7 +1966,7 @@ fn main() {
     if positive_with_effect == 0 {
         vh::machinery_failure("vacuous: no authenticated request had any effect (the agent accepts nothing; harness or agent broken)");
     }
-    if live_honoured == 0 {
+    if live_honoured == 0 && dev_filter.is_none() {
         vh::machinery_failure("vacuous: no response with a live transaction id was honoured");
     }
     if barrier_fallbacks as usize * 20 > outs.len() {
@@ -1264,6 +1974,26 @@ fn main() {
     }
     if classes.len() < 2 || effect_hist.len() < 2 {
         vh::machinery_failure("vacuous: fewer than 2 distinct outcomes");
+    }
+    for kind in Kind::ALL {
+        if dev_filter.is_some_and(|k| k != *kind) {
+            continue;
+        }
+        let Some(k) = by_kind.get(kind.name()) else {
+            vh::machinery_failure(&format!("socket kind {} was not exercised", kind.name()));
+        };
+        if k.positive_with_effect == 0 {
+            vh::machinery_failure(&format!("vacuous on socket kind {}: no authenticated request had any effect", kind.name()));
+        }
+        if k.effects.len() < 2 || k.processed * 2 < k.cases {
+            vh::machinery_failure(&format!("vacuous on socket kind {}: {} distinct outcomes, {} of {} cases demonstrably processed", kind.name(), k.effects.len(), k.processed, k.cases));
+        }
+        if k.barrier_fallbacks * 20 > k.cases {
+            vh::machinery_failure(&format!("socket kind {}: ordering barrier unanswered in {} of {} cases", kind.name(), k.barrier_fallbacks, k.cases));
+        }
+        if *kind == Kind::Mux && k.bystander_positive_with_effect == 0 {
+            vh::machinery_failure("vacuous on shared-udp-mux: no request authenticated against the bystander transport had any effect on it (demultiplexing by USERNAME not exercised)");
+        }
     }
     std::process::exit(rep.finish());
 }
